@@ -121,6 +121,7 @@ class Model:
         self.inl = None
         self.amalg = None
         self.stats = {}
+        self._focus = {}
         self._build(want_inl)
 
     # -- steps ---------------------------------------------------------------------
@@ -137,6 +138,26 @@ class Model:
         with open(js, 'wb') as fh:
             fh.write(run([IRDUMP, o]))
         return ir.Module.load(js)
+
+    def focus(self, unit, keep=()):
+        """the unit with every private (static) helper inlined into its callers, except the functions named in `keep`
+        (those that carry a role of their own) and recursive / address-taken ones.  Splitting a function into
+        private helpers, or merging such helpers, does not change this view."""
+        key = (unit, tuple(sorted(keep)))
+        if key in self._focus:
+            return self._focus[key]
+        bc = os.path.join(self.work, unit + '.bc')
+        tag = 'f%d' % len(self._focus)
+        o1, o2, o3, o = bc + '.m.bc', bc + '.%s.a.bc' % tag, bc + '.%s.s.bc' % tag, bc + '.%s.bc' % tag
+        run([IRDUMP, '--mark-accessors', o1, o2])
+        run([IRDUMP, '--mark-static', o2, o3, ','.join(sorted(keep)) or '-'])
+        run([OPT, '-passes=always-inline,function(mem2reg,early-cse<memssa>)', o3, '-o', o])
+        js = os.path.join(self.work, '%s.%s.json' % (unit, tag))
+        with open(js, 'wb') as fh:
+            fh.write(run([IRDUMP, o]))
+        mod = ir.Module.load(js)
+        self._focus[key] = mod
+        return mod
 
     def _unit(self, u):
         name, src, _, _ = u
